@@ -31,7 +31,7 @@ CHECKS = {
    text="Every reachable state of a node's own key-value state (keys x values incl. empty, deletes, compaction, leave, writes after leave, observer syncs, late re-delivery of its own old state) agrees with a map+counter reference; compaction keeps live keys and drops tombstones; stale and fresh observers agree after synchronising; owners with up to 300 (1000) keys synchronise completely through whole deltas and through datagram-sized deltas; observers that join over the stream with state of their own, and observers behind on two nodes at once at every datagram size of a sweep, end with the owner's keys; no schedule of compaction against local writes loses a write (scheduler pass, program J).",
    note="Versions are compared only by order in the code, so states are identified up to order-isomorphism of versions (argument in DESIGN.md). Finding D2 repaired by a fix: commit.", ref="3 C17"),
  "C20": dict(level=MC, engine="E2-sched", technique="iterative preemption-bounded exhaustive schedule exploration (cooperative scheduler at real Mutex/RWMutex acquisitions) + separate free-running -race pass",
-   text="No schedule of the eleven thread programs (A-J) on a real node core up to the preemption bound deadlocks, panics or exceeds the step horizon, and the registry, routing table and published gossip state agree at quiescence.",
+   text="No schedule of the twelve thread programs (A-J and L, F in two variants) on a real node core up to the preemption bound deadlocks, panics or exceeds the step horizon, and the registry, routing table and published gossip state agree at quiescence.",
    note="Scheduling points = lock acquisitions of manager, cluster.State, syncer, gossip state, failure detector; unsynchronised accesses are covered only by the separate free-running -race pass (sampling).", ref="3 C20, 2.2"),
 
  "C12": dict(level=MC, engine="E3-seq", technique="exhaustive enumeration of all arrival histories up to length window+k on the real detector against an exact rational reference",
